@@ -91,3 +91,42 @@ void h_b64_decode(void) {
     int r = aws_base64_decode(in, out);
     if (r == 0) CANARY("decoded"); else CANARY("refused");
 }
+
+/* ------------------------------------------------------------------ hex encode, appending with growth */
+void h_hex_encode_append_dynamic(void) {
+    const struct aws_byte_cursor *in; struct aws_byte_buf *out;
+    GHOSTS();
+    int r = aws_hex_encode_append_dynamic(in, out);
+    if (r == 0) CANARY("appended"); else CANARY("refused");
+}
+
+/* ------------------------------------------------------------------ composition of the two base64 contracts, one quantum
+ * (loop-free, all inputs): if the four characters of quantum q are what the ENCODE contract promises for an n-byte
+ * input, then the DECODE contract's acceptance conditions hold for them and its byte formula returns the input bytes,
+ * and the predicted lengths agree.  No library code involved: this checks that the two specifications are inverse. */
+void h_quantum_lemma(void) {
+    GHOST_RESET_ENC();
+    size_t q = nondet_size_t(), n = nondet_size_t(), quanta = nondet_size_t();
+    __CPROVER_assume(quanta >= 1 && quanta <= ((size_t)1 << 60) && q < quanta);
+    /* n bytes need exactly `quanta` quanta */
+    __CPROVER_assume(n <= 3 * quanta && n + 3 > 3 * quanta);
+    size_t text_len = 4 * quanta;
+    g_blk = q;
+    g_b0 = nondet_u8(); g_b1 = nondet_u8(); g_b2 = nondet_u8();
+    uint8_t c0 = nondet_u8(), c1 = nondet_u8(), c2 = nondet_u8(), c3 = nondet_u8();
+    __CPROVER_assume(B64_CHAR_IS_CANON(c0, n, 0) && B64_CHAR_IS_CANON(c1, n, 1) && B64_CHAR_IS_CANON(c2, n, 2) && B64_CHAR_IS_CANON(c3, n, 3));
+    g_c0 = c0; g_c1 = c1; g_c2 = c2; g_c3 = c3;
+    __CPROVER_assert(B64_QUANTUM_WF(text_len), "canonical characters form a well-formed quantum");
+    __CPROVER_assert(B64_TRAILING_BITS_ZERO(text_len), "canonical characters have zero trailing bits");
+    __CPROVER_assert(B64_DEC_BYTE(0) == g_b0, "byte 0 of the quantum comes back");
+    __CPROVER_assert(3 * q + 1 >= n || B64_DEC_BYTE(1) == g_b1, "byte 1 of the quantum comes back");
+    __CPROVER_assert(3 * q + 2 >= n || B64_DEC_BYTE(2) == g_b2, "byte 2 of the quantum comes back");
+    if (q + 1 == quanta) {
+        size_t pad = (size_t)(c3 == '=') + (size_t)(c3 == '=' && c2 == '=');
+        __CPROVER_assert(3 * quanta - pad == n, "predicted decoded length of the encoding is the input length");
+        if (pad == 2) CANARY("final quantum with one byte"); else if (pad == 1) CANARY("final quantum with two bytes"); else CANARY("final quantum full");
+    } else {
+        __CPROVER_assert(c2 != '=' && c3 != '=', "no padding before the final quantum");
+        CANARY("inner quantum");
+    }
+}
